@@ -72,6 +72,9 @@ pub struct SetApi {
     pub sk_from_bytes: fn(&[u8]) -> Result<Result<Box<dyn SkOps>, &'static str>, Panic>,
     pub dudect: fn(&mut ScriptRng, &[u8]) -> Result<Result<Vec<u8>, &'static str>, Panic>,
     /// rebuild a key object from its raw in-memory bytes (all fields are plain integers, any bit pattern is valid)
+    /// C16: build a key of `kind` ("sk"/"pk") by `provenance`, drop it in place, inspect every byte of its storage.
+    /// returns (size, bytes non-zero before drop, offsets of non-zero bytes after drop (first 8))
+    pub zeroize_probe: fn(&str, &str, &[u8; 32]) -> Result<(usize, usize, Vec<usize>), String>,
     pub pk_from_raw: fn(&[u8]) -> Box<dyn PkOps>,
     pub sk_from_raw: fn(&[u8]) -> Box<dyn SkOps>,
     pub pk_struct_size: usize,
@@ -84,6 +87,17 @@ fn raw_bytes<T>(t: &T) -> Vec<u8> {
     let n = core::mem::size_of::<T>();
     let p = (t as *const T).cast::<u8>();
     unsafe { core::slice::from_raw_parts(p, n) }.to_vec()
+}
+
+/// Place the object in heap storage that outlives it, run its destructor in place, then read every byte.
+fn drop_and_inspect<T>(obj: T) -> (usize, usize, Vec<usize>) {
+    let n = core::mem::size_of::<T>();
+    let mut slot: Box<core::mem::ManuallyDrop<T>> = Box::new(core::mem::ManuallyDrop::new(obj));
+    let p = (&mut **slot as *mut T).cast::<u8>();
+    let before = (0..n).filter(|&i| unsafe { core::ptr::read_volatile(p.add(i)) } != 0).count();
+    unsafe { core::mem::ManuallyDrop::drop(&mut *slot) };
+    let after: Vec<usize> = (0..n).filter(|&i| unsafe { core::ptr::read_volatile(p.add(i)) } != 0).take(8).collect();
+    (n, before, after)
 }
 
 fn from_raw<T>(b: &[u8]) -> T {
@@ -169,6 +183,36 @@ macro_rules! set_impl {
             }
             fn pk_from_raw(b: &[u8]) -> Box<dyn PkOps> { Box::new(Pk(from_raw::<ns::PublicKey>(b))) }
             fn sk_from_raw(b: &[u8]) -> Box<dyn SkOps> { Box::new(Sk(from_raw::<ns::PrivateKey>(b))) }
+            fn zeroize_probe(kind: &str, prov: &str, xi: &[u8; 32]) -> Result<(usize, usize, Vec<usize>), String> {
+                let mk = || -> Result<(ns::PublicKey, ns::PrivateKey), String> {
+                    match prov {
+                        "keygen_from_seed" | "clone" | "get_public_key" => Ok(ns::KG::keygen_from_seed(xi)),
+                        "try_keygen_with_rng" => ns::try_keygen_with_rng(&mut ScriptRng::ok(xi)).map_err(|e| e.to_string()),
+                        "try_from_bytes" => {
+                            let (pk, sk) = ns::KG::keygen_from_seed(xi);
+                            let pk2 = ns::PublicKey::try_from_bytes(pk.into_bytes()).map_err(|e| e.to_string())?;
+                            let sk2 = ns::PrivateKey::try_from_bytes(sk.into_bytes()).map_err(|e| e.to_string())?;
+                            Ok((pk2, sk2))
+                        }
+                        _ => Err(format!("unknown provenance {prov}")),
+                    }
+                };
+                guard(|| -> Result<(usize, usize, Vec<usize>), String> {
+                    let (pk, sk) = mk()?;
+                    if kind == "sk" {
+                        let obj = if prov == "clone" { sk.clone() } else { sk };
+                        Ok(drop_and_inspect(obj))
+                    } else {
+                        let obj = match prov {
+                            "clone" => pk.clone(),
+                            "get_public_key" => sk.get_public_key(),
+                            _ => pk,
+                        };
+                        Ok(drop_and_inspect(obj))
+                    }
+                })
+                .map_err(|p| format!("panic: {}", p.0))?
+            }
             pub static API: SetApi = SetApi {
                 p: $params,
                 keygen_seed,
@@ -176,6 +220,7 @@ macro_rules! set_impl {
                 pk_from_bytes,
                 sk_from_bytes,
                 dudect,
+                zeroize_probe,
                 pk_from_raw,
                 sk_from_raw,
                 pk_struct_size: core::mem::size_of::<ns::PublicKey>(),
